@@ -456,6 +456,8 @@ namespace GeographicLib {
         is.read(reinterpret_cast<char *>(&numpoints), sizeof(int));
         is.read(reinterpret_cast<char *>(&treesize), sizeof(int));
         is.read(reinterpret_cast<char *>(&cost), sizeof(int));
+        if (!is.good())
+          throw GeographicLib::GeographicErr("Bad header");
       } else {
         if (!( is >> version1 >> realspec >> bucket >> numpoints >> treesize
                >> cost ))
